@@ -255,7 +255,7 @@ Section StpWrites.
     destruct (ch =? 0).
     { apply stp_eok_writes; [exact HE| |lia]. intros a Ha. apply HD. rewrite Nat2Z.inj_succ in Ha. unfold ext in *. lia. }
     destruct ((if use_slen then 0 <? sl - 1 else true) && negb (srcbos =? BOS_UNKNOWN) && (srcbos <=? odmax - Z.of_nat rem)).
-    - cbn [writes_in]. apply stp_fail_writes. exact HE.
+    - apply he_stp.
     - apply IH; lia.
   Qed.
   Lemma stp_walk_writes rem : forall d, od <= d -> d + Z.of_nat rem <= od + odmax -> writes_in P (stp_walk c od odmax errp rem d).
@@ -307,7 +307,7 @@ Proof.
   assert (Body : writes_in (stpP d dmax errp)
     (if s =? 0 then handle_error c 1 d dmax ESNULLP;;; stp_fail errp ESNULLP
      else if rmax_str c <? slen then (len <- strnlen_s_prog c d dmax BOS_UNKNOWN;; handle_error c 1 d len ESLEMAX;;; stp_fail errp ESLEMAX)
-     else if negb (srcbos =? BOS_UNKNOWN) && (srcbos <? slen) then (r <- bos_overflow c d destbos;; stp_fail errp r)
+     else if negb (srcbos =? BOS_UNKNOWN) && (srcbos <? slen) then (r <- bos_overflow c d (if destbos =? BOS_UNKNOWN then dmax else destbos);; stp_fail errp r)
      else if d =? s then stp_walk c d dmax errp (Z.to_nat dmax) d
      else if d <? s then stp_loop c true d dmax s errp srcbos true true (Z.to_nat dmax) d s slen
      else stp_loop c false d dmax d errp srcbos true true (Z.to_nat dmax) d s slen)).
